@@ -169,9 +169,12 @@ class ScriptedBroker(AsyncBroker):
             d = at - loop.time()
             if d > 0:
                 await asyncio.sleep(d)
-            if self.fault_at is not None and i == self.fault_at:
+            if self.fault_at is not None and (i == self.fault_at or (isinstance(self.fault_at, list) and i in self.fault_at)):
                 # at the instant message i would have been handed over the subscription breaks instead; listen() fails
-                self.fault_at = None
+                if isinstance(self.fault_at, list):
+                    self.fault_at.remove(i)          # [k, k]: the next subscription breaks at once, too
+                else:
+                    self.fault_at = None
                 self.tr.add("stream_fault")
                 raise ConnectionError("connection to the broker lost")
             if ackkind is None:
@@ -579,7 +582,7 @@ def run_worker(sc: Dict[str, Any], register: Optional[Callable[..., None]] = Non
     b.ends = bool(sc.get("ends", False))
     b.is_worker_process = True   # what `taskiq worker` sets before it starts the receiver
     b.kick_fail = set(sc.get("fail_kicks", ()))
-    b.fault_at = sc.get("stream_fault")
+    b.fault_at = list(sc["stream_fault"]) if isinstance(sc.get("stream_fault"), list) else sc.get("stream_fault")
     rb = RecordingBackend(tr, sc.get("fail_saves", ()), sc.get("save_latency", 0.0))
     rb.fail_ids = set(sc.get("fail_save_ids", ()))
     rb.fail_exc = sc.get("save_exc", "RuntimeError")
